@@ -74,7 +74,7 @@ def run_client(spec, acc):
             sim.conns[0].feed(b"".join(first))
             await asyncio.sleep(0.5)
             if kind == "waveshare" or rep % 2:
-                sim.conns[0].reset(simgw.serial_loss_exception() if kind == "waveshare" else ConnectionResetError(104, "reset by peer"))
+                sim.conns[0].reset(simgw.link_loss(kind))
             else:
                 sim.conns[0].feed_eof()
             for _ in range(6000):
